@@ -100,4 +100,36 @@ Laws == /\ \A a, b \in Vals : P!XAdd(a, b) = P!XAdd(b, a) /\ P!XMul(a, b) = P!XM
         /\ P!XDiv(1, 0) = P!PInf /\ P!XDiv(-1, 0) = P!NInf /\ P!XDiv(1, P!NZero) = P!NInf
         /\ P!IsNaN(P!XDiv(0, 0)) /\ P!XDiv(-4, 2) = -2 /\ P!XDiv(3, P!NInf) = P!NZero
 ASSUME Laws
+(* complex values whose components are extended integers (SlicePrims.tla, ZCase): the facts the
+   component-special families rely on *)
+ZVals == {-2, 0, 1, 3, P!NaN, P!PInf, P!NInf, P!NZero}
+ZC == ZVals \X ZVals
+Fin(a) == ~P!IsNaN(a) /\ ~P!IsInf(a)
+NumEq(a, b) == a = b \/ (P!IsZero(a) /\ P!IsZero(b))            \* -0 = +0
+ZEq(p, q) == NumEq(p[1], q[1]) /\ NumEq(p[2], q[2])
+ZLaws ==
+  \* the product formula (ac - bd) + (ad + bc)i does not depend on the order of the factors, so one
+  \* expectation serves dst[i] * s[i], s[i] * dst[i], alpha * x[i] and every kernel's operand order
+  /\ \A p, q \in ZC : P!ZMul(p, q) = P!ZMul(q, p)
+  /\ \A p, q \in ZC : ZEq(P!ZConj(P!ZMul(p, q)), P!ZMul(P!ZConj(p), P!ZConj(q)))
+  \* on elements finite in both components a real scalar f may equally be applied as f + 0i,
+  \* and an addition as an axpy with the unit scalar ...
+  /\ \A f \in ZVals : \A p \in ZC : (Fin(f) /\ Fin(p[1]) /\ Fin(p[2])) => ZEq(P!ZMul(<<f, 0>>, p), P!ZRScale(f, p))
+  /\ \A p, q \in ZC : (Fin(q[1]) /\ Fin(q[2])) => ZEq(P!ZAdd(p, P!ZMul(<<1, 0>>, q)), P!ZAdd(p, q))
+                                                  /\ ZEq(P!ZAdd(p, P!ZMul(<<-1, 0>>, q)), P!ZSub(p, q))
+  \* ... but NOT on an element with exactly one non-finite component: the zero imaginary part of
+  \* the scalar meets it (0 * Inf = NaN) and contaminates the finite component, which the
+  \* component-wise definition keeps.  This is why ScaleReal / Add / Sub are NOT products.
+  /\ \A f \in {-2, 1, 3} : \A p \in ZC : (~Fin(p[1]) /\ Fin(p[2])) =>
+        P!IsNaN(P!ZMul(<<f, 0>>, p)[2]) /\ Fin(P!ZRScale(f, p)[2])
+  /\ \A f \in {-2, 1, 3} : \A p \in ZC : (Fin(p[1]) /\ ~Fin(p[2])) =>
+        P!IsNaN(P!ZMul(<<f, 0>>, p)[1]) /\ Fin(P!ZRScale(f, p)[1])
+  /\ \A p, q \in ZC : (Fin(p[1]) /\ Fin(p[2]) /\ ~Fin(q[1]) /\ Fin(q[2])) =>
+        Fin(P!ZAdd(p, q)[2]) /\ P!IsNaN(P!ZAdd(p, P!ZMul(<<1, 0>>, q))[2])
+  \* a product with an infinite factor is never finite in both components, so the set accepted at
+  \* an open position (anything not finite in both components) contains the value of the Go formula
+  \* and every infinity a recovering product could return
+  /\ \A p, q \in ZC : (P!ZIsInf(p) \/ P!ZIsInf(q)) => LET r == P!ZMul(p, q) IN ~(Fin(r[1]) /\ Fin(r[2]))
+  /\ \A p, q \in ZC : P!ZMulOpen(p, q) => P!IsNaN(P!ZMul(p, q)[1]) /\ P!IsNaN(P!ZMul(p, q)[2])
+ASSUME ZLaws
 =============================================================================
